@@ -96,6 +96,7 @@ def showMRet : MRet → String
   | .opt none => "end"
   | .nat n => toString n
   | .throw => "throw"
+  | .entries l => if l.isEmpty then "-" else ",".intercalate (l.map fun (k, v) => s!"{k}>{v}")
 
 def showSRet : SRet → String
   | .unit => "-"
@@ -112,6 +113,8 @@ def parseMOp : List String → Option MOp
   | ["mcount", k] => do pure (.count (← int? k))
   | ["mat", k] => do pure (.at (← int? k))
   | ["msize"] => some .size
+  | ["miter"] => some .iter
+  | ["mcget", k] => do pure (.cindex (← int? k))
   | ["mclear"] => some .clear
   | "minit" :: xs => do let l ← ints? xs; pure (.init ((pairs l).take 4))
   | _ => none
@@ -146,7 +149,12 @@ def flatStep (ltM ltS : Int → Int → Bool) (m : FMap) (s : FSet) (ws : List S
     | some op => let (s', r) := s.step ltS op; some (m, s', showSRet r)
     | none =>
       -- copy construction / copy assignment / move of the whole map (defaulted members): the map is unchanged
-      if ws = ["mcopy"] then some (m, s, "10") else none
+      if ws = ["mcopy"] then some (m, s, "10")
+      -- operator== / != against a map rebuilt through operator[] in reverse order
+      else if ws = ["meq"] then
+        let c := m.rebuiltRev ltM
+        some (m, s, (if c.eqStorage m then "1" else "0") ++ (if c.eqStorage m then "0" else "1"))
+      else none
 
 def stepLine (st : Mode) (line : String) : Mode × String :=
   match words line with
